@@ -4,12 +4,14 @@ use crate::core::{Acc, CaseResult, ShardCtx};
 use serde_json::Value;
 
 pub mod c01;
+pub mod c03;
 pub mod c07;
 pub mod c08;
 pub mod c09;
 pub mod c10;
 pub mod c16;
 pub mod c17;
+pub mod c18;
 pub mod c19;
 pub mod c20;
 
@@ -30,7 +32,7 @@ pub struct PropDef {
 }
 
 pub fn all() -> Vec<PropDef> {
-    vec![c01::def(), c07::def(), c08::def(), c09::def(), c10::def(), c16::def(), c17::def(), c19::def(), c20::def()]
+    vec![c01::def(), c03::def(), c07::def(), c08::def(), c09::def(), c10::def(), c16::def(), c17::def(), c18::def(), c19::def(), c20::def()]
 }
 
 pub fn find(id: &str) -> Option<PropDef> {
